@@ -372,7 +372,9 @@ LimCl == /\ IsEvent("lim.cl")
          /\ LET ev == Trace[l]
                 isClient == \E i \in 1..Len(cfg.clients) : cfg.clients[i] = ev.addr
                 k == KeyM(ev.addr, cfg.v4mask, cfg.v6mask)
-                adm2 == IF ev.res THEN Append(ladm, [k |-> k, t |-> ev.now, n |-> ev.n]) ELSE ladm
+                \* the instant of the admission is the event's own stamp (taken under the bucket's lock), not the
+                \* time the caller handed to the limiter: a stale argument must not move the window
+                adm2 == IF ev.res THEN Append(ladm, [k |-> k, t |-> ev.t, n |-> ev.n]) ELSE ladm
             IN /\ Report(l, (IF isClient THEN {} ELSE {"Inv_C15_ChargedAddress"})
                          \cup (IF ev.key = k THEN {} ELSE {"Inv_C15_Key"})
                          \cup (IF ev.res /\ ~BudgetNewestL(adm2) THEN {"Inv_C15_Budget"} ELSE {}))
